@@ -16,7 +16,7 @@ def main():
     out = []
     for c in P["cases"]:
         x = np.array(c["x"], dtype="int16")
-        template = np.array(c["template"], dtype="float64")
+        template = np.array(c["template"], dtype=c.get("tdtype", "float64"))       # 0/1 marks: float64, uint8 or bool
         labels = np.array(c["labels"], dtype="int32")
         nout = len(np.unique(labels))
         t0, l0 = template.copy(), labels.copy()
